@@ -756,6 +756,10 @@ func Run(o *drv.Out) {
 	for _, sc := range schemes {
 		(&runner{o: o, w: w, sc: sc, mode: sc, kind: fsm.MessageEditStakeName, seen: seen, fails: fails}).runMidBlock()
 	}
+	// forged transactions in every lane of the batch verifier, with and without warm signature cache
+	for i, sc := range schemes {
+		(&runner{o: o, w: w, sc: sc, mode: sc, kind: fsm.MessageSendName, seen: seen, fails: fails}).runLanes(i)
+	}
 	// the same table with every governance proposal rejected by the local configuration
 	w.sm.SetProposalVoteConfig(fsm.RejectAllProposals)
 	for _, kind := range []string{fsm.MessageChangeParameterName, fsm.MessageDAOTransferName} {
